@@ -94,6 +94,14 @@ struct VStore
 	friend bool operator < (const VStore & a, const VStore & b) { ++gLtCalls; return a.tag != b.tag ? a.tag < b.tag : a.text < b.text; }
 };
 
+// The application that owns VStore has functions of its own that happen to carry the names of the library's internal helpers (an
+// "approximately equal" and a "sorts before, ignoring type" of its own).  Found through argument-dependent lookup they would replace
+// the storage's operators: a library call into its helpers must not be hijacked by the namespace of the user's Storage type.
+static uint64_t gDecoyCalls = 0;
+inline bool compareEqual(const VStore & a, const VStore & b) { ++gDecoyCalls; return a.text.size() == b.text.size(); }
+inline bool compareLessThan(const VStore & a, const VStore & b) { ++gDecoyCalls; return a.text.size() < b.text.size(); }
+inline int compareValue(const VStore & a, const VStore & b) { ++gDecoyCalls; return (int)a.text.size() - (int)b.text.size(); }
+
 // keeps the value but offers no comparison at all (like std::any)
 struct NStore
 {
@@ -582,6 +590,7 @@ struct Case
 		tripleLaws();
 		count("storage.eq_calls", gEqCalls - eq0);
 		count("storage.lt_calls", gLtCalls - lt0);
+		if(gDecoyCalls != 0) { fail("lookup:library-helper-call-resolved-to-a-function-of-the-storage's-namespace", "comparing ids called a function of the Storage type's own namespace that merely has the name of a library helper (argument-dependent lookup) " + unum(gDecoyCalls) + " time(s)"); gDecoyCalls = 0; }
 		// a broken equivalence / ordering makes the maps' behaviour undefined: report the law, do not route
 		if(! caseHasViolation() || ctx().optInt("route_always", 0) != 0) {
 			routing(0);
